@@ -125,6 +125,17 @@ impl<'a> ExecutionEngine<'a> {
         self.statement.join_clause().is_some()
     }
 
+    /// Returns true when a non-aggregate query has already produced all the rows its LIMIT allows,
+    /// i.e. no (further) input needs to be consumed
+    pub fn reached_limit(&self) -> bool {
+        match self.statement {
+            Statement::Select(select_statement) => {
+                select_statement.limit.map(|limit| self.num_output_rows >= limit).unwrap_or(false)
+            }
+            _ => false
+        }
+    }
+
     pub fn execution_config(&self) -> ExecutionConfig {
         if self.is_aggregate() {
             ExecutionConfig::aggregate_update()
